@@ -37,6 +37,7 @@ func TestVerifReplay(t *testing.T) {
 			}
 			h()
 		}()
+		vstub.Cleanup()
 		failures, trace := vstub.Report()
 		out, _ := json.Marshal(map[string]interface{}{"failures": failures, "trace": trace, "panic": panicMsg})
 		fmt.Printf("VERIF-REPLAY-RESULT %s %s\n", f, out)
